@@ -46,6 +46,13 @@ def rand_json(rng, depth):
     return {rng.choice(STRS) + str(i): rand_json(rng, depth - 1) for i in range(rng.randrange(4))}
 
 
+REGISTERED_SHAPES = [
+    {"sub": None, "name": "alice"}, {"iss": "https://issuer.example", "aud": None, "exp": None, "scope": ["a", "b"]}, {"jti": None}, {"nbf": None, "iat": None, "iss": None},
+    {"iss": "", "sub": "", "aud": "", "jti": ""}, {"aud": [], "sub": {}, "iss": [None], "jti": {"id": None}}, {"aud": ["a", None, ["b"]], "sub": 0, "iss": False, "jti": 1.5},
+    {"exp": 2 ** 33, "nbf": 0, "iat": 1700000000, "aud": ["x", "y"], "sub": "s", "iss": "i", "jti": "j", "tenant": None, "nested": {"sub": None, "aud": [None]}},
+]
+
+
 def rand_claims(rng):
     c = {rng.choice(["sub", "iss", "aud", "jti", "x", "é", "n"]) + str(i): rand_json(rng, 3) for i in range(rng.randrange(5))}
     for name in ("exp", "nbf", "iat"):
@@ -103,6 +110,11 @@ def run(ctx):
             claims = dict(claims, **[{"pad": "A" * 8000}, {"roles": ["user"] * 2000}, {"perms": [{"resource": "doc", "action": "read"}] * 300}, {"pad": "B" * 8000},
                                       {"pad": "A" * 40000}, {"roles": ["admin", "user"] * 700}, {"pad": "é" * 3000}, {"roles": ["user"] * 2000}][i])
             force_zip = transport == "jwe" and i != 6
+        elif i < 8 + 2 * len(REGISTERED_SHAPES):
+            # always present: the REGISTERED claim names themselves carrying every JSON type - null, empty and nested values
+            # included - over both transports: a claim is a member of a JSON object, whatever its name
+            transport = ["jws", "jwe"][(i - 8) % 2]
+            claims = copy.deepcopy(REGISTERED_SHAPES[(i - 8) // 2])
         header_extra = rng.choice([{}, {"typ": "at+jwt"}, {"kid": "k1"}, {"cty": "x"}, {"typ": "JWT", "x5t": "abc"},
                                    # an explicit typ overrides the default verbatim - whatever its case or content
                                    {"typ": "jwt"}, {"typ": "Jwt"}, {"typ": "JWT "}, {"typ": "jwT", "cty": "JWT"}, {"typ": "application/jwt"}])
